@@ -21,6 +21,16 @@ ProjOK(m) ==
   /\ Chk("model_objects", SeqToSet(Ev.proj.objs) = models'[m].objs)
   /\ Chk("inputs_as_wired",
          \A o \in models'[m].objs : SeqToSet(Ev.proj.inputs[ToString(o)]) = models'[m].inputs[o])
+  \* the group g = {first: object 1, root: object 3} is reported iff one of its members is in the model
+  /\ Chk("groups_reported_with_all_their_members",
+         Hdr.universe # "abcs" \/
+         (IF models'[m].objs \cap {1, 3} = {} THEN Len(Ev.proj.groups) = 0
+          ELSE /\ Len(Ev.proj.groups) = 1 /\ Ev.proj.groups[1][1] = "g"
+               /\ Ev.proj.groups[1][2] = <<"first", "root">>
+               \* (a member outside the model may be a copy whose name is not tracked: the members inside carry model names)
+               /\ Len(Ev.proj.groups[1][3]) = 2
+               /\ Cardinality({i \in 1..2 : Ev.proj.groups[1][3][i] \in models'[m].names})
+                    >= Cardinality(models'[m].objs \cap {1, 3})))
   /\ Chk("every_node_and_input_of_the_model_belongs_to_it", Ev.proj.members_ok /\ Ev.proj.closed)
   /\ Chk("outputs_are_exact_inverse_of_inputs", Ev.proj.outputs_inverse_ok)
   /\ Chk("update_order_is_topological", Ev.proj.topo_ok)
